@@ -148,8 +148,89 @@ def rule_fit_map(F, ev, R, config, rule="R-FIT-MAP"):
 # --------------------------------------------------------------------------- #
 # statistics: roles by use
 # --------------------------------------------------------------------------- #
+def stats_field_shapes(F, ev, roles):
+    """{field: (rows, cols)} symbolic shapes (shapes.py) of the values the single constructor stores, plus the model term;
+    {} if they cannot be established (public fields, several constructors, …)"""
+    try:
+        from shapes import Shapes, S_, B_, P_, ONE
+        fs = struct_fields(F, ADT_STATS)
+        if not all(f["vis"] != "pub" for f in fs):
+            return {}, None
+        b, env, f, s, sbi = ctor_fields(F, ev)
+        a = args_by_type(b)
+        model = a["model"]
+        Sd, Bd = ("sym", S_, model), ("sym", B_, model)
+        ax = {("wsize", a["weights"]): Sd}
+        coef = None
+        for x in walk(f[roles["wres"]]):
+            if x[0] == "call" and x[1] == "std::ops::Mul::mul" and x[3][1] in a.get("mats", []):
+                coef = x[3][1]
+        for m in a.get("mats", []):
+            ax[m] = (Bd, ONE) if m == coef else (Sd, ONE)
+        shp = Shapes(F, ev, ax)
+        out = {}
+        for name, term in f.items():
+            try:
+                out[name] = shp.shape(term)
+            except Exception:
+                continue
+        return out, model
+    except Exception:
+        return {}, None
+
+
+def derived_dof(F, ev, roles):
+    """the degrees of freedom are not stored but derived in the accessor as `len(residuals) − dim(covariance)`: returns
+    the ν term pattern (field of the residuals, field of the covariance) if the constructor's shapes make that N − (M+P)"""
+    from effects import iteration_effects
+    from shapes import S_, B_, P_, ONE, dadd
+    hits = []
+    for mb in inherent_methods(F, ADT_STATS):
+        if not (mb.j.get("inputs") and ADT_STATS in mb.j["inputs"][0]):
+            continue
+        me = ("param", mb.key, 1)
+        try:
+            effs = list(iteration_effects(ev, Env(mb)))
+        except RecursionError:
+            continue
+        for e in effs:
+            if e.kind == "call" and "StudentsT" in e.cid and e.name == "ppf" and len(e.raw) >= 2:
+                t = e.raw[1]
+                while True:
+                    if t[0] == "call" and t[1].rsplit("::", 1)[-1] in ("expect", "unwrap", "from_usize") and t[3]:
+                        t = t[3][0]
+                    elif t[0] == "payload" and t[2] == "ok":
+                        t = t[1]
+                    elif t[0] == "cast":
+                        t = t[2]
+                    else:
+                        break
+                if t[0] == "bin" and t[1] in ("Sub", "SubUnchecked"):
+                    A, B = t[2], t[3]
+                    if A[0] == "call" and B[0] == "call" and A[3] and B[3] and A[3][0][0] == "field" and B[3][0][0] == "field" \
+                            and A[3][0][1] == me and B[3][0][1] == me:
+                        hits.append((A[1].rsplit("::", 1)[-1], A[3][0][2], B[1].rsplit("::", 1)[-1], B[3][0][2]))
+    if len(set(hits)) != 1:
+        return None
+    an, fa, bn, fb = hits[0]
+    shapes_, model = stats_field_shapes(F, ev, roles)
+    sa, sb = shapes_.get(fa), shapes_.get(fb)
+    if sa is None or sb is None or model is None:
+        return None
+    Sd, Bd, Pd = ("sym", S_, model), ("sym", B_, model), ("sym", P_, model)
+    okA = (an == "nrows" and sa[0] == Sd) or (an == "len" and sa[0] == Sd and sa[1] == ONE)
+    tot = dadd(Bd, Pd)
+    okB = (bn == "nrows" and sb[0] == tot) or (bn == "ncols" and sb[1] == tot)
+    if okA and okB:
+        return {"n": (an, fa), "k": (bn, fb)}
+    return None
+
+
 def stats_roles(F, ev):
-    roles = {"dof": dof_role(F, ev)}
+    try:
+        roles = {"dof": dof_role(F, ev)}
+    except AnchorMissing:
+        roles = {"dof": None}
 
     def ret_field(name):
         bs = inherent_methods(F, ADT_STATS, name)
@@ -193,10 +274,36 @@ def stats_roles(F, ev):
         fs -= {roles["dof"]}
         if len(fs) == 1:
             roles["sigma"] = fs.pop()
+    if roles["dof"] is None:
+        # no stored degrees of freedom: accepted only when the accessor derives them from the shapes of stored values
+        d = derived_dof(F, ev, roles)
+        if d is None:
+            raise AnchorMissing("degrees-of-freedom role: no field reaches StudentsT::ppf and the quantile's degrees of freedom are not "
+                                "`len(weighted residuals) − dim(covariance)` of stored values with shapes N and M+P")
+        roles["dof_derived"] = d
+        if "sigma" not in roles:
+            # the band accessor now also reads the residuals and the covariance (for their sizes)
+            bs = inherent_methods(F, ADT_STATS, "confidence_band_radius")
+            if len(bs) == 1:
+                fs = set()
+                for cid, head, args, t, body, bi in effect_calls(ev, Env(bs[0])):
+                    if last_seg(cid) in ("len", "nrows", "ncols", "shape"):
+                        continue
+                    for a in args:
+                        for x in walk(a):
+                            if x[0] == "field" and x[1] == ("param", bs[0].key, 1):
+                                fs.add(x[2])
+                fs -= {d["n"][1], d["k"][1]}
+                if len(fs) == 1:
+                    roles["sigma"] = fs.pop()
     for k in ("lin", "nonlin", "sigma"):
         if k not in roles:
             raise AnchorMissing("FitStatistics role `%s` cannot be resolved by use" % k)
     return roles
+
+
+def last_seg(cid):
+    return cid.rsplit("::", 1)[-1]
 
 
 def ctor_fields(F, ev):
@@ -354,7 +461,10 @@ def rule_chi2(F, ev, R, config, rule="R-CHI2"):
         num, den = chi[3]
         d = ok_of(den)
         okn = num[0] == "call" and num[1].endswith("norm_squared") and num[3][0] == wres
-        okd = d is not None and d[0] == "call" and d[1].endswith("from_usize") and d[3][0] == f[sr["dof"]]
+        if sr["dof"] is not None:
+            okd = d is not None and d[0] == "call" and d[1].endswith("from_usize") and d[3][0] == f[sr["dof"]]
+        else:
+            okd = d is not None and d[0] == "call" and d[1].endswith("from_usize") and match_dof(d[3][0]) is not None
         ok = okn and okd
         if not okn:
             msg = "numerator `%s` is not the squared norm of the weighted residuals" % short(num)[:120]
@@ -889,7 +999,13 @@ def rule_band(F, ev, R, config, rule="R-BAND"):
             t = t[3][0]
         else:
             break
-    ok = t == ("field", me, sr["dof"])
+    if sr["dof"] is not None:
+        ok = t == ("field", me, sr["dof"])
+    else:
+        dd = sr["dof_derived"]
+        ok = (t[0] == "bin" and t[1] in ("Sub", "SubUnchecked") and t[2][0] == "call" and t[3][0] == "call"
+              and last_seg(t[2][1]) == dd["n"][0] and t[2][3] == (("field", me, dd["n"][1]),)
+              and last_seg(t[3][1]) == dd["k"][0] and t[3][3] == (("field", me, dd["k"][1]),))
     R.add(rule, config, b.key, "nu=degrees-of-freedom", ok, "" if ok else "degrees of freedom handed to the quantile are `%s`, not the stored N−M−P" % short(nu)[:120], pt.get("span"))
     # --- radius_i = t · sigma_i for every sample i (canonical tabulation of the returned vector)
     import effects as fx
